@@ -277,8 +277,8 @@ theorem pushTop_inScope_root (v : Value) (ks : List Tree)
       nsDecls_node, traverseDecls_append, basePrefixes]
     congr 1
     have hns : Env.xmlPrefix ∉ (traverseDecls [] (declsOfKids ks)).1 := by
-      rw [traverseDecls_seen]; simpa using hx
-    rw [traverseDecls_cons_new hns]
+      rw [traverseDecls_seen_sc]; simpa using hx
+    rw [traverseDecls_cons_new_sc hns]
     simp [traverseDecls_nil, Env.xmlPrefix, Env.emptyPrefix]
   unfold pushTop
   cases hf : declsOfKids ks with
@@ -313,7 +313,7 @@ theorem inScope_root_no_decls (v : Value) (ks : List Tree) (h : declsOfKids ks =
   rw [namespacesInScopeChain_eq]
   simp only [allDecls, flatDecls, List.flatMap_cons, List.flatMap_nil, List.append_nil,
     nsDecls_node, h, List.nil_append, basePrefixes]
-  rw [traverseDecls_cons_new (by simp)]
+  rw [traverseDecls_cons_new_sc (by simp)]
   simp [traverseDecls_nil, Env.xmlPrefix, Env.emptyPrefix]
 
 theorem wr_root (env : Env) (t : Tree) (h : RootOk t) :
